@@ -54,6 +54,12 @@ impl In {
     fn json(&self) -> Value {
         match self {
             In::Naive(t) => json!({"naive": [t.year(), t.month(), t.day(), t.hour(), t.minute(), t.second()]}),
+            // at the edges of the range the instant in UTC may not be representable in Python:
+            // the driver builds these (fixed-offset zones only) from their local fields
+            In::Aware(t) if t.naive_local().year() >= 9999 || t.naive_local().year() <= 1900 => {
+                let l = t.naive_local();
+                json!({"aware_local": [l.year(), l.month(), l.day(), l.hour(), l.minute(), l.second()], "zone": t.timezone().name()})
+            }
             In::Aware(t) => json!({"ts": t.timestamp(), "zone": t.timezone().name()}),
         }
     }
@@ -87,13 +93,46 @@ fn out_dt_naive_ctx(n: NaiveDateTime, prefer: Option<Tz>) -> Value {
 
 const BUDGET: u64 = 2_500;
 
+/// zones whose offset is fixed at the end of the supported range / at its start
+const FIXED_UPPER: [&str; 6] = ["UTC", "Asia/Tokyo", "Asia/Kolkata", "Etc/GMT+12", "Etc/GMT-14", "Pacific/Honolulu"];
+const FIXED_LOWER: [&str; 3] = ["UTC", "Etc/GMT+12", "Etc/GMT-14"];
+
+/// An aware datetime whose LOCAL time lies in the last 30 hours of 9999 (upper) or within a day
+/// of 1900-01-01T00:00 (lower), in a fixed-offset zone.
+fn edge_aware(r: &mut Rng, upper: bool) -> In {
+    let (z, local): (Tz, NaiveDateTime) = if upper {
+        let end = NaiveDate::from_ymd_opt(9999, 12, 31).unwrap().and_hms_opt(23, 59, 59).unwrap();
+        let back = match r.below(4) {
+            0 => r.range(0, 120),
+            1 => r.range(0, 14 * 3600),
+            _ => r.range(0, 30 * 3600),
+        };
+        (r.pick(&FIXED_UPPER).parse().unwrap(), end - Duration::seconds(back))
+    } else {
+        let start = NaiveDate::from_ymd_opt(1900, 1, 1).unwrap().and_hms_opt(0, 0, 0).unwrap();
+        (r.pick(&FIXED_LOWER).parse().unwrap(), start + Duration::seconds(r.range(-20 * 3600, 30 * 3600)))
+    };
+    In::Aware(z.from_local_datetime(&local).earliest().unwrap_or_else(|| z.from_utc_datetime(&local)))
+}
+
 fn expect_calls(exp: &Exp, r: &mut Rng, ast: &OpeningHoursExpression, n_calls: usize) -> Vec<Value> {
     let mut calls = Vec::new();
     for _ in 0..n_calls {
         let base = super::c03::gen_instant(r, ast);
         let base = base.with_nanosecond(0).unwrap();
         let base = if base.year() > 9990 { base.with_year(9990).unwrap_or(base) } else { base };
-        let input = if r.chance(45) {
+        // edges of the supported range with aware datetimes: only in zones whose offset is fixed there
+        // (tzdata and chrono-tz agree by construction), under a naive or fixed-offset context
+        let ctx_zone: Option<Tz> = match exp {
+            Exp::Naive(_) => None,
+            Exp::Zoned(_, tz) => Some(*tz),
+        };
+        let edge_upper = ctx_zone.map(|z| FIXED_UPPER.contains(&z.name())).unwrap_or(true) && r.chance(10);
+        let edge_lower = !edge_upper && ctx_zone.map(|z| z.name() == "UTC").unwrap_or(true) && r.chance(4);
+        let edge = edge_upper || edge_lower;
+        let input = if edge {
+            edge_aware(r, edge_upper)
+        } else if r.chance(45) {
             In::Naive(base)
         } else {
             let z: Tz = r.pick(&PY_ZONES).parse().unwrap();
@@ -119,7 +158,9 @@ fn expect_calls(exp: &Exp, r: &mut Rng, ast: &OpeningHoursExpression, n_calls: u
                         _ => None,
                     },
                     _ => {
-                        let end_in = if method == "intervals_end" {
+                        let end_in = if method == "intervals_end" && edge {
+                            Some(edge_aware(r, edge_upper))
+                        } else if method == "intervals_end" {
                             let span = Duration::minutes(r.range(1, 40 * 1440));
                             // aware datetimes only in years where Python's tzdata and chrono-tz agree
                             let modern = |t: &NaiveDateTime| (1971..=2036).contains(&t.year());
@@ -174,7 +215,9 @@ fn expect_calls(exp: &Exp, r: &mut Rng, ast: &OpeningHoursExpression, n_calls: u
                         _ => None,
                     },
                     _ => {
-                        let end_in = if method == "intervals_end" {
+                        let end_in = if method == "intervals_end" && edge {
+                            Some(edge_aware(r, edge_upper))
+                        } else if method == "intervals_end" {
                             let span = Duration::minutes(r.range(1, 40 * 1440));
                             let e = i.clone() + span;
                             Some(if r.chance(30) || !(1971..=2036).contains(&e.year()) {
